@@ -120,7 +120,15 @@ def trinterp_rotation_and_translation(env, cfg, ck):
     sc = 1 + A.normsq(np, t0) + A.normsq(np, t1)
     ck.eq('s=0:rotation', M0[:3, :3], R0, tol=1e-6)
     ck.eq('s=1:rotation', M1[:3, :3], Rend, tol=1e-6)
-    ck.eq('constant-rate-rotation', Ms[:3, :3], Rs, tol=1e-6)
+    if env.symbolic:
+        ck.eq('constant-rate-rotation', Ms[:3, :3], Rs, tol=1e-6)
+    else:
+        # native replay runs the real r2q, whose sign choice for the two end quaternions decides the arc taken: the
+        # relative quaternion is r or -r (half-angle phi or phi - pi about the same axis)
+        ca, sa = env.math.cos(s * (phi - env.pi)), env.math.sin(s * (phi - env.pi))
+        Ralt = A.quat_to_R(np, A.hamilton(np, q0, [ca, sa * n[0], sa * n[1], sa * n[2]]))
+        err = min(float(abs(Ms[:3, :3] - Rs).max()), float(abs(Ms[:3, :3] - Ralt).max()))
+        ck.true('constant-rate-rotation', err <= 1e-6, 'distance %.3g from both arcs' % err)
     check_SO(ck, np, 'valid', Ms[:3, :3], 3, tol=1e-6)
     if cfg['shape'] == 'SE3':
         ck.eq('s=0:translation', M0[:3, 3], np.array(t0), tol=1e-6, scale=sc)
@@ -197,6 +205,22 @@ def class_interpolators_agree_with_base(env, cfg, ck):
             ck.eq('bounded:agrees-with-slerp%d' % k, qi.A, np.array(want), tol=1e-6)
             ck.eq('bounded:s=0:%d' % k, ck.call(U.interp, 0).A, np.array([1, 0, 0, 0]), tol=1e-6)
             ck.eq('bounded:s=1:%d' % k, ck.call(U.interp, 1).A, np.array(rq), tol=1e-6)
+        # two-quaternion form, pairs with a negative inner product: shortest=True takes the short arc at a constant
+        # rate, shortest=False the long one (rotations compared as matrices: q and -q are the same rotation)
+        def rx(a):
+            return np.array([[1, 0, 0], [0, math.cos(a), -math.sin(a)], [0, math.sin(a), math.cos(a)]])
+        a0, a1 = 0.9 * math.pi, -0.9 * math.pi
+        U0 = sm.UnitQuaternion(np.array([math.cos(a0 / 2), math.sin(a0 / 2), 0, 0]))
+        U1 = sm.UnitQuaternion(np.array([math.cos(a1 / 2), math.sin(a1 / 2), 0, 0]))
+        for k, sv in enumerate([0.2, 0.5, 0.9]):
+            qs = ck.call(U0.interp, sv, U1, shortest=True)
+            ck.eq('bounded:shortest-arc:%d' % k, qs.R, rx(a0 + sv * 0.2 * math.pi), tol=1e-6)
+            ql = ck.call(U0.interp, sv, U1, shortest=False)
+            ck.eq('bounded:long-arc:%d' % k, ql.R, rx(a0 - sv * 1.8 * math.pi), tol=1e-6)
+            # one-quaternion form with a negative scalar part: from the identity along the short arc
+            Un = sm.UnitQuaternion(np.array([-math.cos(0.35), -math.sin(0.35), 0, 0]), norm=False, check=False)
+            qn = ck.call(Un.interp, sv, shortest=True)
+            ck.eq('bounded:shortest-from-identity:%d' % k, qn.R, rx(sv * 0.7), tol=1e-6)
         return
     M = R1 if cls == 'SO3' else A.homog(np, R1, env.reals('t', 3))
     X = getattr(sm, cls)(M, check=False)
